@@ -189,59 +189,100 @@ fn any_request() -> ([u8; 52], bool) {
     (req, well_formed)
 }
 
-/// The synchronous steps of `handle_packet`, called one by one through thin hook wrappers in the
-/// order `handle_packet` calls them (parse, is_request, new_response, serialize, new_follow_up,
-/// serialize), with the same echo checks on the produced bytes. What this does not cover is the
-/// glue inside `handle_packet` (which values it passes on); that is `c45_handle`.
+/// Steps 1-3 of `handle_packet` through thin hook wrappers: parse the template request,
+/// `is_request`, `new_response` with the reception time and the server state; the response is
+/// inspected as a `statime_wire::Message` (its serialisation is C41's subject).
 #[kani::proof]
 #[kani::unwind(5)]
-fn c45_messages() {
+fn c45_response() {
     let (req, well_formed) = any_request();
     let env = any_env();
     let snapshot = TimeSnapshot { leap_indicator: env.leap, ..TimeSnapshot::default() };
-    let mut rec = Rec {
-        ev_calls: 0,
-        ev: [0; CAP],
-        ev_len: 0,
-        ev_from: env.local,
-        ev_to: env.remote,
-        gen_calls: 0,
-        gn: [0; CAP],
-        gen_len: 0,
-        gen_from: env.local,
-        gen_to: env.remote,
-        ev_result: env.ev_result,
-        gen_result: env.gen_result,
-    };
     let parsed = gh::msg_deserialize(&req);
     assert!(parsed.is_some() == well_formed, "template parses as a CSPTP message iff sdoId 0x300, PTP version 2, valid timestamp");
     let Some(request) = parsed else { return };
     assert!(gh::msg_is_request(&request) && !gh::msg_is_response(&request), "a Sync with a request TLV is a request");
-    let mut tlvbuf = [0u8; 128];
+    let mut tlvbuf = [0u8; 64];
     let Some(response) = gh::msg_new_response(&mut tlvbuf, &request, env.rx, None, &snapshot, &env.state) else {
         assert!(false, "a response can be built for every request");
         return;
     };
-    let Some(n) = gh::msg_serialize(&response, &mut rec.ev) else {
-        assert!(false, "the response fits 128 bytes");
+    assert!(gh::msg_is_response(&response) && !gh::msg_is_request(&response), "the answer is a response");
+    let m = gh::msg_message(&response);
+    let h = &m.header;
+    assert!(h.domain_number == req[4], "response echoes the request's domain");
+    assert!(h.sequence_id == be16(&req, 30), "response echoes the request's sequence id");
+    assert!(u16::from(h.sdo_id) == 0x300 && h.version.major() == 2, "CSPTP sdoId and PTP version 2");
+    assert!(h.two_step_flag && h.unicast_flag, "two-step (a follow-up will carry the send time), unicast");
+    assert!(h.leap61 == (env.leap == NtpLeapIndicator::Leap61) && h.leap59 == (env.leap == NtpLeapIndicator::Leap59), "leap flags follow the server's leap indicator");
+    assert!(h.ptp_timescale == env.state.ptp_timescale && h.time_tracable == env.state.time_traceable && h.frequency_tracable == env.state.frequency_traceable, "timescale / traceability flags from the server state");
+    assert!(matches!(m.body, statime_wire::MessageBody::Sync(_)), "response is a Sync");
+    let status_requested = req[48] & 1 != 0;
+    let mut it = m.suffix.tlvs();
+    let first = it.next();
+    let Some(t) = first else {
+        assert!(false, "response carries a TLV");
         return;
     };
-    rec.ev_calls = 1;
-    rec.ev_len = n;
-    if let Ok(tx) = env.ev_result {
-        let Some(fu) = gh::msg_new_follow_up(&response, tx) else {
-            assert!(false, "a follow-up can be built for every two-step response");
+    assert!(t.tlv_type == statime_wire::TlvType::CsptpResponse && t.value.len() == 18, "first TLV is the CSPTP response TLV");
+    assert!(be48(&t.value, 0) == env.rx.seconds() && be32(&t.value, 6) == env.rx.nanos(), "reqIngressTimestamp = reception time of the request");
+    assert!(be64(&t.value, 10) == be64(&req, 8), "reqCorrectionField = correctionField of the request");
+    let second = it.next();
+    if status_requested {
+        let Some(s) = second else {
+            assert!(false, "status TLV present when requested");
             return;
         };
-        let Some(n) = gh::msg_serialize(&fu, &mut rec.gn) else {
-            assert!(false, "the follow-up fits 128 bytes");
-            return;
-        };
-        rec.gen_calls = 1;
-        rec.gen_len = n;
+        assert!(s.tlv_type == statime_wire::TlvType::CsptpStatus && s.value.len() == 18, "second TLV is the CSPTP status TLV");
+        assert!(s.value[0] == env.state.grandmaster_priority_1 && s.value[5] == env.state.grandmaster_priority_2, "status TLV priorities");
+        assert!(be16(&s.value, 6) == env.state.steps_removed, "status TLV stepsRemoved");
+        assert!(be64(&s.value, 10) == u64::from_be_bytes(env.state.grandmaster_identity.0), "status TLV grandmaster identity");
+        assert!(it.next().is_none(), "no further TLVs");
+    } else {
+        assert!(second.is_none(), "no status TLV unless requested");
     }
-    check_answer(&env, &req, &rec, req[48] & 1 != 0);
-    kani::cover!(req[48] & 1 != 0 && env.ev_result.is_ok(), "response with status TLV and follow-up");
+    kani::cover!(status_requested && be64(&req, 8) != 0, "response with status TLV, non-zero correction echoed");
+}
+
+/// Steps 4-6 on a response built from a request made by the client-side constructor
+/// (`new_request`: concrete shape, symbolic domain and sequence id): `new_follow_up` with the
+/// send timestamp, serialised, read back at the wire offsets.
+#[kani::proof]
+#[kani::unwind(5)]
+fn c45_follow_up() {
+    let domain: u8 = kani::any();
+    let seq: u16 = kani::any();
+    let env = any_env();
+    let tx = any_timestamp();
+    let snapshot = TimeSnapshot { leap_indicator: env.leap, ..TimeSnapshot::default() };
+    let mut reqbuf = [0u8; 8];
+    let Some(request) = gh::msg_new_request(&mut reqbuf, domain, seq) else {
+        assert!(false, "a request can be built");
+        return;
+    };
+    let mut tlvbuf = [0u8; 64];
+    let Some(response) = gh::msg_new_response(&mut tlvbuf, &request, env.rx, None, &snapshot, &env.state) else {
+        assert!(false, "a response can be built for every request");
+        return;
+    };
+    let Some(fu) = gh::msg_new_follow_up(&response, tx) else {
+        assert!(false, "a follow-up can be built for every two-step response");
+        return;
+    };
+    let mut f = [0u8; 64];
+    let n = gh::msg_serialize(&fu, &mut f);
+    assert!(n == Some(44) && be16(&f, 2) == 44, "follow-up has no TLVs");
+    assert!(f[0] == 0x38 && f[5] == 0 && f[1] & 0x0f == 2, "follow-up is a PTPv2 Follow_Up with sdoId 0x300");
+    assert!(f[4] == domain && be16(&f, 30) == seq, "follow-up echoes domain and sequence id");
+    assert!(f[6] & 0x02 != 0, "follow-up keeps the two-step flag");
+    assert!(be48(&f, 34) == tx.seconds() && be32(&f, 40) == tx.nanos(), "preciseOriginTimestamp = the send time handed to new_follow_up");
+    // a one-step response (send timestamp known up front) has no follow-up
+    let mut tlvbuf2 = [0u8; 64];
+    if let Some(one_step) = gh::msg_new_response(&mut tlvbuf2, &request, env.rx, Some(tx), &snapshot, &env.state) {
+        assert!(!gh::msg_message(&one_step).header.two_step_flag, "one-step response");
+        assert!(gh::msg_new_follow_up(&one_step, tx).is_none(), "no follow-up for a one-step response");
+    }
+    kani::cover!(domain == 128 && seq == 0xffff, "default domain, last sequence id");
 }
 
 /// Template: Sync + CSPTP request TLV (4 value bytes), 52 bytes; type/length fields concrete, rest symbolic.
